@@ -1,6 +1,7 @@
 import Clikit.Model.History
 import Clikit.Props.C05
 import Clikit.Lemmas.Dict
+import Clikit.Lemmas.AppState
 /-!
 # C17 - what is rendered does not depend on what was processed before
 
@@ -279,5 +280,112 @@ example :
     runHistory helpTarget outcome [([['p']], some false)] [0, 1, 0, 2, 0] =
       [(0, some false), (1, some false), (0, some false), (2, some false), (0, some false)] := by
   decide
+
+end Clikit.Props.C17
+
+/-! ## History independence on the composed application model
+
+`Model/AppState.lean`: `runAppS` is `ConsoleApplication.run` (the composed model `App.runApp` of C04/C09) on an
+application OBJECT: it threads the state the real object keeps between runs - every command's leniency
+setting (as configured / as it is now; the help resolver's toggle with the protocol of the source) and the
+scratch dictionaries of installed parser objects (C05's `parseFrom`).  The theorems below say that none of it
+reaches a later run. -/
+namespace Clikit.Props.C17
+open Clikit Clikit.Parser Clikit.Resolver Clikit.App Clikit.AppState
+
+/-- **Every run leaves every command's leniency setting (and the parser wiring) as it found it** - on every exit
+path: a handler that ran, a help page, a failing resolution, a parse error, and a help request whose lenient
+parse raises (`ValueError` of a conversion) - whatever the settings and the scratch states were. -/
+theorem app_run_restores_state (env : Env) (cv : Conv) (app : List Cmd) (hs : Handlers) (s : AppState) (toks : List Str) :
+    (∀ p, lenEntry (runAppS env cv app hs s toks).2 p = lenEntry s p) ∧
+    (runAppS env cv app hs s toks).2.parserOf = s.parserOf :=
+  (runAppS_spec env cv app hs (SameLen.refl s) toks).1
+
+/-- after any run on an application whose settings are the configured ones, they still are -/
+theorem app_run_keeps_configured (env : Env) (cv : Conv) (app : List Cmd) (hs : Handlers) (s : AppState)
+    (h : Restored s) (toks : List Str) : Restored (runAppS env cv app hs s toks).2 :=
+  (runAppS_spec env cv app hs (SameLen.refl s) toks).1.restored h
+
+/-- **a run on an application object whose settings are the configured ones is the pure run** - whatever its
+parser objects hold (C05) -/
+theorem app_run_stateless (env : Env) (cv : Conv) (app : List Cmd) (hs : Handlers) (s : AppState) (h : Restored s)
+    (toks : List Str) : (runAppS env cv app hs s toks).1 = runApp env cv app hs toks :=
+  (runAppS_spec env cv app hs (SameLen.refl s) toks).2 h
+
+/-- every run of a history gives the result of the pure run of its line, and the settings stay the configured ones -/
+theorem app_history_results (env : Env) (cv : Conv) (app : List Cmd) (hs : Handlers) (s : AppState) (h : Restored s)
+    (hist : List (List Str)) :
+    (runHistoryS env cv app hs s hist).1 = hist.map (runApp env cv app hs) ∧
+    Restored (runHistoryS env cv app hs s hist).2 :=
+  ⟨(runHistoryS_spec env cv app hs hist (SameLen.refl s)).2 h,
+   (runHistoryS_spec env cv app hs hist (SameLen.refl s)).1.restored h⟩
+
+/-- **History independence of a whole run**: for every application, every handler assignment, every history of
+command lines run on ONE application object - valid lines, failing ones, help requests in both spellings, help
+requests that fail - and every final line: the result of the final run (I/O configuration, what happened, status,
+the handler that ran and the arguments it got) is the result of the pure run of that line. -/
+theorem app_run_history_independent (env : Env) (cv : Conv) (app : List Cmd) (hs : Handlers) (s : AppState)
+    (h : Restored s) (hist : List (List Str)) (final : List Str) :
+    (runAppS env cv app hs (runHistoryS env cv app hs s hist).2 final).1 = runApp env cv app hs final :=
+  app_run_stateless env cv app hs _ (app_history_results env cv app hs s h hist).2 final
+
+/-- the property as stated, without hypothesis: **a re-used application gives what a fresh one gives**, for every
+configuration of leniency settings and installed parser objects -/
+theorem app_reused_eq_fresh (env : Env) (cv : Conv) (app : List Cmd) (hs : Handlers)
+    (raw : List (List Str × Option Bool)) (parsers : List (List Str × Nat)) (hist : List (List Str)) (final : List Str) :
+    (runAppS env cv app hs (runHistoryS env cv app hs (initState raw parsers) hist).2 final).1 =
+      (runAppS env cv app hs (initState raw parsers) final).1 := by
+  rw [app_run_history_independent env cv app hs _ (initState_restored raw parsers),
+    app_run_stateless env cv app hs _ (initState_restored raw parsers)]
+
+section AppDemo
+open Clikit.AppState.Demo
+
+/-- **D21 as a proved counterexample**: with the protocol before the repair (leniency switched off, and only after
+a normal return) the failing help request `probe --count=abc -h` leaves `probe` lenient, and `probe 1 2 3` then
+RUNS the handler with status 0 - on a fresh application it is a parse error with status 1. -/
+theorem d21_protocol_history_dependent :
+    (lenEntry (runAppSP preD21 env cv app hs fresh helpFails).2 [Help.S "probe"]).current = some true ∧
+    (runAppSP preD21 env cv app hs (runHistorySP preD21 env cv app hs fresh [helpFails]).2 tooMany).1.status = some 0 ∧
+    (runAppSP preD21 env cv app hs (runHistorySP preD21 env cv app hs fresh [helpFails]).2 tooMany).1.invoked
+      = [([Help.S "probe"], { args := [(Help.S "a", .scalar (.str (Help.S "1")))], opts := [] })] ∧
+    (runAppSP preD21 env cv app hs fresh tooMany).1.status = some 1 ∧
+    (runAppSP preD21 env cv app hs fresh tooMany).1.invoked = [] := by
+  decide +kernel
+
+/-! ### every theorem with a hypothesis, applied (the hypothesis discharged) on a concrete application: a help
+request for a command whose lenient parse raises, followed by a normal run -/
+
+/-- the help request fails inside the help resolver (`ValueError`, status 1) ... -/
+example : (runApp env cv app hs helpFails).what = .error .valueError ∧ (runApp env cv app hs helpFails).status = some 1 := by
+  decide +kernel
+/-- ... and leaves the setting of `probe` as it was (`None`), the shared parser object dirty -/
+example : lenEntry (runAppS env cv app hs fresh helpFails).2 [Help.S "probe"] = { configured := none, current := none } ∧
+    scratchOf (runAppS env cv app hs fresh helpFails).2 0 ≠ St.empty := by
+  decide +kernel
+/-- the run after it is the pure run: a parse error -/
+example : (runAppS env cv app hs (runHistoryS env cv app hs fresh [helpFails]).2 tooMany).1.what = .error .cannotParse :=
+  (congrArg Result.what (app_run_history_independent env cv app hs fresh (initState_restored _ _) [helpFails] tooMany)).trans
+    (by decide +kernel)
+example : (runAppS env cv app hs (runHistoryS env cv app hs fresh [helpFails]).2 tooMany).1.status = some 1 :=
+  (congrArg Result.status (app_reused_eq_fresh env cv app hs [] _ [helpFails] tooMany)).trans (by decide +kernel)
+/-- on a used application object (explicit setting, dirty shared parser object) -/
+example : (runAppS env cv app hs used [Help.S "probe", Help.S "--count=5", Help.S "x"]).1 =
+    runApp env cv app hs [Help.S "probe", Help.S "--count=5", Help.S "x"] :=
+  app_run_stateless env cv app hs used used_restored _
+example : (runApp env cv app hs [Help.S "probe", Help.S "--count=5", Help.S "x"]).invoked =
+    [([Help.S "probe"], { args := [(Help.S "a", .scalar (.str (Help.S "x")))], opts := [(Help.S "count", .scalar (.int 5))] })] := by
+  decide +kernel
+example : Restored (runAppS env cv app hs used helpFails).2 := app_run_keeps_configured env cv app hs used used_restored _
+example : (runHistoryS env cv app hs used [helpFails, tooMany, [Help.S "help", Help.S "probe"], tooMany]).1 =
+    [helpFails, tooMany, [Help.S "help", Help.S "probe"], tooMany].map (runApp env cv app hs) :=
+  (app_history_results env cv app hs used used_restored _).1
+/-- the hypothesis is not vacuous the other way either: a state whose setting is NOT the configured one -/
+example : ¬ Restored (runAppSP preD21 env cv app hs fresh helpFails).2 := fun h => by
+  have := h [Help.S "probe"]
+  revert this
+  decide +kernel
+
+end AppDemo
 
 end Clikit.Props.C17
